@@ -110,12 +110,14 @@ def _run_case(case):
     probes.install()
     probes.counters['prefilter_drops'] = 0
     probes.counters['partial_list_prune'] = 0
+    probes.counters['list_onto_surviving_mapping'] = 0
     _build(texts)
     rep = _build(texts + [texts[-1]])
     if not same(base, rep):
         # open finding: attributed only when, in these builds, a list merge left partial survivors (root cause): the list pre-filter
         # dropped nodes of the newer value, or the pruning of an older list removed some but not all of its elements
-        fid = 'list-prefilter-partial-survivor' if (probes.counters['prefilter_drops'] or probes.counters['partial_list_prune']) else None
+        fid = 'list-prefilter-partial-survivor' if (probes.counters['prefilter_drops'] or probes.counters['partial_list_prune']
+                                                    or probes.counters['list_onto_surviving_mapping']) else None
         if fid is None and same(base, rep, ordered=False) and any(n.get('del') is True and n['t'] == 'map' for _, n in tdoc.walk(docs[-1])):
             # second open finding: the data are equal, only the order of keys differs, and the repeated document holds a !del mapping
             # (a key it removes and writes again keeps its place the first time if protected descendants kept it alive, and moves to the end otherwise)
